@@ -45,6 +45,12 @@ impl Op {
     }
 }
 
+/// The name `set_name` gives a node: nodes of the same parity share a name, so that names are neither
+/// unique within an index space nor across index spaces (the name section must still list every one).
+pub fn node_name(id: u64) -> String {
+    format!("nm{}", id % 2)
+}
+
 /// The real graph plus the harness-owned map from spec identifiers to real identifiers.
 #[derive(Clone)]
 pub struct Machine {
@@ -267,7 +273,7 @@ impl Machine {
             }
             "set_name" => {
                 let n = self.nodes[&op.n1];
-                g.set_node_name(n, format!("nm{}", op.n1));
+                g.set_node_name(n, node_name(op.n1));
                 Ok(None)
             }
             "remove" => {
